@@ -716,11 +716,23 @@ def generate(rng, index, tier):
                 if any(o['op'] == 'set_administration' and not o['direct']
                        for o in recipe['config']) else [])
             vals = {}
-            for c in rng.sample(cands, rng.randint(1, min(3, len(cands)))):
+            n_pick = rng.randint(1, min(3, len(cands)))
+            everything = forced is None and rng.random() < 0.2
+            if everything:
+                n_pick = len(cands)       # everything, then release some
+            for c in rng.sample(cands, n_pick):
                 vals[sh['par'].get(c, c)] = (
-                    None if rng.random() < 0.3
+                    None if rng.random() < 0.3 and not everything
                     else round(rng.uniform(0.2, 2.0), 3))
             op['values'] = vals
+            if everything:
+                if rng.random() < 0.6:
+                    ops.append({'op': 'enable_sensitivities', 'on': h,
+                                'enabled': True})
+                ops.append(op)
+                op = {'op': 'fix_parameters', 'on': h, 'values': {
+                    sh['par'].get(c, c): None for c in rng.sample(
+                        cands, rng.randint(1, 2))}}
         elif k == 'copy':
             if n_copies >= 3:
                 continue
